@@ -318,7 +318,15 @@ def probe(inputs, binary=None, timeout=600, extra_env=None):
 
 
 def model(inputs, timeout=600):
-    outs, rc, err = lines_proc([MODEL_EXE], inputs, timeout=timeout)
+    # the executable may be relinked by a concurrent `lake build` (ETXTBSY / ENOENT for an instant)
+    for attempt in range(6):
+        try:
+            outs, rc, err = lines_proc([MODEL_EXE], inputs, timeout=timeout)
+            break
+        except OSError:
+            if attempt == 5:
+                raise
+            time.sleep(2.0)
     if rc != 0 or any(o is None for o in outs):
         raise RuntimeError("acmed_model failed rc=%s %s" % (rc, err))
     return outs
